@@ -5,6 +5,7 @@ KINDS = [["o"], ["x"], ["-"], ["~"], ["<"], [">"], ["-", "o"], ["o", "-"], ["x",
 NAMES = ["a1", "home", "work", "tag_x", "Zed", "p10", "bob"]
 KEYS = ["due", "k", "ab_c", "shared"]
 VALUES = ["v1", "42", "val", "007", "Some_Value", "x9"]
+DATE_LOOKALIKES = ["45min", "2days", "3m_left", "1y2", "10D_x", "7d7", "0d0", "12month"]
 HEADS = ["240101", "231201", "5d", "-3d", "10m", "-2m", "1y", "0d"]
 DIRS = ["sub", "a", "deep_1"]
 OKEYS = ["alpha", "create", "modify", "priority", "type", "none"]
@@ -27,6 +28,9 @@ def gen_atom(rng, depth):
     if r < 0.74:
         if rng.random() < 0.25:
             return ["prop", rng.random() < 0.3, rng.choice(KEYS), None, None]
+        if rng.random() < 0.2:
+            # values that BEGIN like a relative date (digits + d/m/y) but go on: ordinary strings
+            return ["prop", rng.random() < 0.3, rng.choice(KEYS), [rng.choice(["<", "<=", ">=", ">"])], [rng.choice(DATE_LOOKALIKES)]]
         return ["prop", rng.random() < 0.3, rng.choice(KEYS), rng.choice([None, None, ["<"], ["<="], [">="], [">"]]), [rng.choice(VALUES)]]
     if r < 0.81:
         return ["link", rng.random() < 0.3, rng.sample(DIRS, rng.choice([0, 0, 1, 2])), rng.choice(NAMES)]
